@@ -502,7 +502,15 @@ func genCluster(seed uint64, tier, variant string) any {
 			k := ks[r.IntN(len(ks))]
 			to := r.IntN(nsh)
 			g := GhostSpec{MinStep: r.IntN(120)}
-			switch pick(r, "move", "move", "migrate", "migrate", "failover", "down", "freeze-move", "loading", "new-shard") {
+			switch pick(r, "move", "move", "migrate", "migrate", "migrate-pair", "failover", "down", "freeze-move", "loading", "new-shard") {
+			case "migrate-pair":
+				// two slots migrate to the same shard at once and only one of the migrations is cancelled: members of one
+				// batch that were sent on with ASKING then meet different fates on the target
+				k2 := ks[r.IntN(len(ks))]
+				p.Ghosts = append(p.Ghosts, GhostSpec{Kind: "migrate-start", MinStep: g.MinStep, Argv: []string{strconv.Itoa(k.slot), strconv.Itoa(to)}})
+				p.Ghosts = append(p.Ghosts, GhostSpec{Kind: "migrate-start", MinStep: g.MinStep, Argv: []string{strconv.Itoa(k2.slot), strconv.Itoa(to)}})
+				p.Ghosts = append(p.Ghosts, GhostSpec{Kind: pick(r, "migrate-cancel", "migrate-finish"), MinStep: g.MinStep + 5 + r.IntN(60), Argv: []string{strconv.Itoa(k.slot)}})
+				p.Ghosts = append(p.Ghosts, GhostSpec{Kind: pick(r, "migrate-cancel", "migrate-finish"), MinStep: g.MinStep + 40 + r.IntN(80), Argv: []string{strconv.Itoa(k2.slot)}})
 			case "new-shard":
 				// (a fifth connection: the refresh candidates must then come from the ordered InitAddress list)
 				if total >= 4 {
@@ -1359,6 +1367,27 @@ func (ce *clusterEnv) judge() {
 			}
 			if !hasUID || len(att) == 0 {
 				continue
+			}
+			// ---- C20/C19: an error reply handed to the caller of a cached read is one the cluster gave to THIS command ----
+			if (spec.Kind == "cache" || spec.Kind == "mcache") && r.Err == "" && (r.V.T == '-' || r.V.T == '!') && faultFree && !ctxEnded {
+				own := false
+				anyErr := false
+				for _, a := range att {
+					if a.ex.Reply.IsErr() {
+						anyErr = true
+						if a.ex.Reply.S == r.V.S {
+							own = true
+						}
+					}
+				}
+				switch {
+				case own:
+					out.judged("error-is-the-commands-own")
+				case strings.HasPrefix(r.V.S, "EXECABORT") && !anyErr:
+					out.judged("execabort-without-own-error") // the transaction around the cached read was refused for another reason
+				default:
+					out.violate(prop, "error-of-another-command", "task %d call %d cmd %d %q returned %s, which the cluster never answered to this command (its own answers: %s)", task, rec.Index, i, truncArgv(argv), truncStr(r.V.String(), 160), attemptNodes(att))
+				}
 			}
 			// ---- C19: first attempt in stable plans ----
 			first := att[0]
